@@ -12,6 +12,7 @@ import (
 	"time"
 
 	"github.com/cosmos/iavl"
+	dbm "github.com/cosmos/iavl/db"
 	"github.com/cosmos/iavl/fastnode"
 )
 
@@ -61,6 +62,42 @@ func execDec(toks []string) string {
 					return "err"
 				}
 				return fmt.Sprintf("ok:F,ver=%d,v=%s", n.GetVersionLastUpdatedAt(), hex.EncodeToString(n.GetValue()))
+			case "getroot":
+				// a root entry with this value, read back through the public API: version 1 is a
+				// one-leaf tree (k -> v) written by the library, the entry of version 2 is written
+				// raw; GetImmutable(2).Get(k) must answer, or fail with an error
+				db := dbm.NewMemDB()
+				t := iavl.NewMutableTree(db, 0, true, iavl.NewNopLogger())
+				if _, err := t.Set([]byte("k"), []byte("v")); err != nil {
+					return "setuperr"
+				}
+				if _, _, err := t.SaveVersion(); err != nil {
+					return "setuperr"
+				}
+				rk := make([]byte, 13)
+				rk[0] = 's'
+				binary.BigEndian.PutUint64(rk[1:], 2)
+				binary.BigEndian.PutUint32(rk[9:], 1)
+				val := buf
+				if val == nil {
+					val = []byte{}
+				}
+				if err := db.Set(rk, val); err != nil {
+					return "setuperr"
+				}
+				t2 := iavl.NewMutableTree(db, 0, true, iavl.NewNopLogger())
+				imm, err := t2.GetImmutable(2)
+				if err != nil {
+					return "err"
+				}
+				got, err := imm.Get([]byte("k"))
+				if err != nil {
+					return "err"
+				}
+				if got == nil {
+					return "ok:nil"
+				}
+				return "ok:" + hex.EncodeToString(got)
 			case "root":
 				if len(buf) == 0 { // GetRoot tests for the empty root before classifying
 					return "ok:empty"
@@ -190,6 +227,30 @@ func genDec(r *rand.Rand, tier, id string) Case {
 		ref := append([]byte{'s'}, nk...)
 		var buf []byte
 		var kind string
+		if r.Intn(4) == 0 {
+			// root entries read back through GetRoot: references in the 13-byte and in the old
+			// 9-byte form (to the existing version, to themselves, to nothing), the empty root, node
+			// encodings, and mutations / truncations of all of them
+			mk := func(v uint64, n uint32, short bool) []byte {
+				b := make([]byte, 13)
+				b[0] = 's'
+				binary.BigEndian.PutUint64(b[1:], v)
+				binary.BigEndian.PutUint32(b[9:], n)
+				if short {
+					return b[:9]
+				}
+				return b
+			}
+			kleaf := append(append(append(sv(0), sv(1)...), lp([]byte("k"))...), lp(val)...)
+			cands := [][]byte{mk(1, 1, false), mk(1, 1, true), mk(1, 0, false), mk(1, 2, false), mk(2, 1, false), mk(2, 1, true),
+				mk(9, 1, false), mk(9, 1, true), {}, kleaf, leaf, inner, mk(1, 1, false)[:r.Intn(13)+1]}
+			b := cands[r.Intn(len(cands))]
+			if r.Intn(3) == 0 {
+				b = mutate(r, b)
+			}
+			add("getroot", b)
+			continue
+		}
 		switch r.Intn(9) {
 		case 0:
 			kind, buf = "node", leaf
